@@ -488,6 +488,44 @@ theorem trans_C04_C07_C09_issue_enabled_iff (n : Nat) (s : LSt) (i p : Nat)
   by_cases a : (s.inst i).held.length < (s.inst i).target <;> by_cases b : p < (s.inst i).parts <;>
     by_cases c : p ∈ (s.inst i).held <;> simp [a, b, c]
 
+/-! ### SharedResource: the requirement checks in front of provisioning (v1 `Provision`, v2 `Start`) -/
+
+/-- v2 `Start`: refused with `ImproperOrderError` unless the resource is uninitialised (C17: starts exactly once - the
+phase is set to started at the end of a successful Start); otherwise an unset factor becomes 1 and an unset
+MaxInterval 500 ms, so the loop's `rand.Intn(int(r.maxInterval))` never panics on a non-positive argument and the
+divisions by the factor never see 0 (C09, C06) -/
+theorem trans_C06_C09_C17_requirements_v2 (r : T_v2_sharedResource_req) (hf : 0 ≤ r.factor) (hm : 0 ≤ r.maxInterval)
+    (hf2 : r.factor < 4294967296) (hm2 : r.maxInterval < 4294967296) :
+    (r.phase ≠ 0 → v2_sr_requirements r = (r, "ImproperOrderError")) ∧
+    (r.phase = 0 → (v2_sr_requirements r).2 = "" ∧
+       (v2_sr_requirements r).1.factor = (if r.factor = 0 then 1 else r.factor) ∧
+       (v2_sr_requirements r).1.maxInterval = (if r.maxInterval = 0 then 500 else r.maxInterval) ∧
+       0 < (v2_sr_requirements r).1.factor ∧ 0 < (v2_sr_requirements r).1.maxInterval ∧
+       (v2_sr_requirements r).1.phase = 0) := by
+  obtain ⟨f, m, ph⟩ := r
+  simp only at hf hm hf2 hm2
+  by_cases h0 : ph = 0 <;> by_cases h1 : f = 0 <;> by_cases h2 : m = 0 <;>
+    simp [v2_sr_requirements, u32, h0, h1, h2] <;> omega
+
+/-- v1 `Provision`: the order of the refusals (wrong phase, no lease manager, no shared capacity) and the same two
+defaults; a refusal changes nothing but the defaulted factor -/
+theorem trans_C06_C09_C17_requirements_v1 (r : T_v1_AzureSharedResource_req) (hf : 0 ≤ r.factor) (hm : 0 ≤ r.maxInterval)
+    (hs : 0 ≤ r.sharedCapacity) :
+    (v1_sr_requirements r).2 =
+      (if r.phase ≠ 0 then "RateLimiterImproperOrderError"
+       else if r.leaseManager = false then "UndefinedLeaseManagerError"
+       else if r.sharedCapacity = 0 then "UndefinedSharedCapacityError" else "") ∧
+    ((v1_sr_requirements r).2 = "" →
+       (v1_sr_requirements r).1.factor = (if r.factor = 0 then 1 else r.factor) ∧
+       (v1_sr_requirements r).1.maxInterval = (if r.maxInterval = 0 then 500 else r.maxInterval) ∧
+       (v1_sr_requirements r).1.sharedCapacity = r.sharedCapacity) := by
+  obtain ⟨f, m, sh, lm, ph⟩ := r
+  simp only at hf hm hs
+  have e2 : m = 0 ↔ m < 1 := by omega
+  have e3 : sh = 0 ↔ sh < 1 := by omega
+  by_cases h0 : ph = 0 <;> cases lm <;> by_cases h1 : f = 0 <;> by_cases h2 : m < 1 <;> by_cases h3 : sh < 1 <;>
+    simp [v1_sr_requirements, u32, h0, h1, h2, h3, e2, e3]
+
 /-! ### Batcher: the admission checks at the head of `Enqueue`, and `applyDefaults`
 
 `v?_enqueueAdmit` is the translation of everything `Enqueue` does BEFORE its first `r.incTarget(...)`; the calls
@@ -626,5 +664,7 @@ example : v2_sr_pick ⟨1, 4, 0, 0, 0, [true, false, true, false]⟩ 1 = (2, 3, 
 example : issueGuard (heldIdx [true, false, true, false]) 3 4 (v2_sr_pick ⟨1, 4, 0, 0, 0, [true, false, true, false]⟩ 1).2.1.toNat := by
   unfold issueGuard; decide
 example : v2_op_Attempt (v2_op_MakeAttempt ⟨5, 4294967295, true⟩) = 0 := by decide   -- the wrap the guard excludes
+example : v2_sr_requirements ⟨0, 0, 0⟩ = (⟨1, 500, 0⟩, "") ∧ v2_sr_requirements ⟨0, 0, 1⟩ = (⟨0, 0, 1⟩, "ImproperOrderError") := by decide
+example : (v1_sr_requirements ⟨0, 0, 10, true, 0⟩) = (⟨1, 500, 10, true, 0⟩, "") := by decide
 
 end GoBatcher.ExpectTrans
